@@ -549,3 +549,179 @@ Proof.
   - cbn [ev_pad ev_bits]. rewrite !app_length, repeat_length, marker_length. cbn [length].
     pose proof (padk_mod (n + 3)). split; lia.
 Qed.
+
+Definition inv (st : ostate) : Prop :=
+  oavail st = N.of_nat (length (rout st)) /\ olen st = oavail st.
+
+Lemma loop_more step : forall f f' st s r,
+  loop step f st s = r -> (forall a b, r <> SStop a b Fuel) -> (f <= f')%nat ->
+  loop step f' st s = r.
+Proof.
+  induction f as [|f IH]; intros f' st s r H Hn Hle.
+  - cbn [loop] in H. subst r. exfalso. eapply Hn. reflexivity.
+  - destruct f' as [|f']; [lia|]. cbn [loop] in *.
+    destruct (step st s) as [a b|a b|a b x]; try exact H.
+    apply IH; [exact H | exact Hn | lia].
+Qed.
+
+Section WithCodec.
+  Hypothesis Hheader : header_statement.
+  Hypothesis Hsymbols : symbols_statement.
+  Hypothesis Hexpand : apply_toks_expand_statement.
+
+  (* a dynamic block: header, tokens, end-of-block *)
+  Lemma dyn_block_core litlens distlens ts (last : bool) st rest p :
+    length litlens = 286%nat -> length distlens = 30%nat ->
+    Forall (fun x => x <= 15) litlens -> Forall (fun x => x <= 15) distlens ->
+    oversubscribed 15 (map N.to_nat litlens) = false ->
+    oversubscribed 15 (map N.to_nat distlens) = false ->
+    nthN litlens 256 <> 0 ->
+    lens_valid 7 (cl_hist litlens distlens) (generate 7 (cl_hist litlens distlens)) ->
+    Forall (tok_coded litlens distlens) ts ->
+    toks_ok 32768 (oavail st) ts ->
+    let B := header_bits litlens distlens last ++
+             flat_map (token_bits (gen_codes litlens) (gen_codes distlens)) ts ++
+             sym_word (gen_codes litlens) 256 in
+    block1 st (mkbs (B ++ rest) p)
+    = close (if last then 1 else 0) (apply_toks ts st) (mkbs rest (p + N.of_nat (length B)))
+    /\ (3 <= length B)%nat.
+  Proof.
+    intros L1 L2 F1 F2 O1 O2 H256 Hcl Hcoded Htok B.
+    set (T := flat_map (token_bits (gen_codes litlens) (gen_codes distlens)) ts ++
+              sym_word (gen_codes litlens) 256) in *.
+    destruct (Hheader litlens distlens last (T ++ rest) (p + N.of_nat 1 + N.of_nat 2)
+                      L1 L2 F1 F2 O1 O2 H256 Hcl) as (body & lt & dt & Hh & Hlt & Hdt & Hdyn).
+    assert (Hn : nonleaf lt) by (eapply mktrie_nonleaf; exact Hlt).
+    pose proof (Hsymbols litlens distlens lt dt ts st rest
+                         (p + N.of_nat 1 + N.of_nat 2 + N.of_nat (length body))
+                         (S (length (T ++ rest) + length ts))
+                         L1 L2 Hlt Hdt H256 Hcoded Htok) as Hsym.
+    cbv zeta in Hsym. fold T in Hsym. specialize (Hsym ltac:(lia)).
+    rewrite symbols_loop in Hsym.
+    split.
+    2:{ unfold B. rewrite Hh, !app_length. cbn [length]. lia. }
+    unfold B. rewrite Hh.
+    replace (([last; false; true] ++ body) ++ T) with ([last] ++ [false; true] ++ body ++ T)
+      by (rewrite <- !app_assoc; reflexivity).
+    rewrite <- !app_assoc.
+    erewrite block1_eq; [| apply take_app; reflexivity | apply take_app; reflexivity].
+    change (N_of_bits [false; true]) with 2.
+    erewrite block_body_dyn by exact Hdyn.
+    destruct (loop (sym1 lt dt) (S (length (T ++ rest) + length ts)) st
+                   (mkbs (T ++ rest) (p + N.of_nat 1 + N.of_nat 2 + N.of_nat (length body))))
+      as [a b|a b|a b x] eqn:EL; cbn [bres_of] in Hsym; try discriminate.
+    inversion Hsym; subst a b.
+    erewrite huff_block_end; [| exact Hn | | exact EL].
+    2:{ unfold blen. cbn [bl]. lia. }
+    replace (N_of_bits [last]) with (if last then 1 else 0) by (destruct last; reflexivity).
+    f_equal. f_equal. rewrite !app_length. cbn [length]. lia.
+  Qed.
+
+  Lemma inv_apply ts st : toks_ok 32768 (oavail st) ts -> inv st ->
+    inv (apply_toks ts st) /\ rout (apply_toks ts st) = expand_rev ts (rout st) /\
+    oavail (apply_toks ts st) = oavail st + sumN (map tok_len ts).
+  Proof.
+    intros Htok [I1 I2].
+    destruct (Hexpand ts st Htok I1) as (E1 & E2 & E3 & _).
+    split; [split; [exact E2 | lia]|]. split; [exact E1|].
+    rewrite E2, E1, expand_rev_length. lia.
+  Qed.
+
+  Lemma ev_core e n st tl :
+    event_ok e -> trace_toks_ok 32768 (e :: tl) (oavail st) -> inv st ->
+    exists st',
+      (forall rest, block1 st (mkbs (ev_bits e n ++ rest) (N.of_nat n))
+                    = close (if ev_final e then 1 else 0) st'
+                            (mkbs rest (N.of_nat (n + length (ev_bits e n))))) /\
+      inv st' /\ rout st' = trace_data_rev [e] (rout st) /\
+      trace_toks_ok 32768 tl (oavail st') /\ (3 <= length (ev_bits e n))%nat.
+  Proof.
+    intros Hok Htr Hinv.
+    destruct e as [ts l|d f| |].
+    - (* EBlock *)
+      cbn [event_ok] in Hok. cbn [trace_toks_ok] in Htr. destruct Htr as (Htok & Hlit & Htl).
+      cbn [ev_bits ev_final trace_data_rev].
+      unfold block_ok, block_bits, block_lens in *.
+      destruct (tok_counts ts) as [lc dc] eqn:Etc.
+      destruct Hok as (V1 & V2 & V3).
+      set (litlens := generate 15 (reduce_counts lc)) in *.
+      set (distlens := generate 15 dc) in *.
+      destruct (tok_counts_spec ts lc dc Etc) as (Llc & Ldc & Hcnt).
+      destruct (lens_valid_props _ _ _ 286%nat (reduce_counts_length lc Llc) V1) as (L1 & F1 & O1).
+      destruct (lens_valid_props _ _ _ 30%nat Ldc V2) as (L2 & F2 & O2).
+      change (N.of_nat 15) with 15 in F1, F2.
+      assert (H256 : nthN litlens 256 <> 0).
+      { destruct V1 as (_ & _ & _ & V). apply V. rewrite reduce_counts_256 by exact Llc. lia. }
+      assert (Hcoded : Forall (tok_coded litlens distlens) ts).
+      { eapply coded_of_counts; eauto. }
+      destruct (inv_apply ts st Htok Hinv) as (I' & R' & A').
+      exists (apply_toks ts st). split; [|split; [exact I' | split; [exact R' | split]]].
+      + intros rest.
+        destruct (dyn_block_core litlens distlens ts l st rest (N.of_nat n)
+                                 L1 L2 F1 F2 O1 O2 H256 V3 Hcoded Htok) as [Hb _].
+        cbv zeta in Hb. rewrite Hb. f_equal. f_equal. lia.
+      + rewrite A'. exact Htl.
+      + destruct (dyn_block_core litlens distlens ts l st [] 0
+                                 L1 L2 F1 F2 O1 O2 H256 V3 Hcoded Htok) as [_ Hlen].
+        exact Hlen.
+    - (* EHBlock *)
+      cbn [event_ok] in Hok. destruct Hok as [Hok Hbytes]. cbn [trace_toks_ok] in Htr.
+      cbn [ev_bits ev_final trace_data_rev].
+      unfold hblock_ok, hblock_bits in *. cbv zeta in Hok.
+      destruct Hok as (V1 & V3).
+      set (h := fold_left (fun h x => incN h x 1) d (repeat 0 513)) in *.
+      assert (Etc : tok_counts (map TLit d) = (h, repeat 0 30)).
+      { rewrite tok_counts_fold. apply tok_counts_lits. }
+      destruct (tok_counts_spec _ _ _ Etc) as (Llc & _ & Hcnt).
+      fold h in V1. unfold hblock_lens in *. fold h. fold h in V1, V3.
+      set (litlens := generate 15 (reduce_counts h)) in *.
+      destruct (lens_valid_props _ _ _ 286%nat (reduce_counts_length h Llc) V1) as (L1 & F1 & O1).
+      change (N.of_nat 15) with 15 in F1.
+      assert (H256 : nthN litlens 256 <> 0).
+      { destruct V1 as (_ & _ & _ & V). apply V. rewrite reduce_counts_256 by exact Llc. lia. }
+      assert (Hcoded : Forall (tok_coded litlens (repeat 0 30)) (map TLit d)).
+      { rewrite Forall_forall. intros t Hin. pose proof (Hcnt t Hin) as C.
+        apply in_map_iff in Hin. destruct Hin as (x & Ex & Hx). subst t.
+        rewrite Forall_forall in Hbytes. specialize (Hbytes x Hx).
+        cbn [tok_coded counted] in *. split; [exact Hbytes|].
+        destruct V1 as (_ & _ & _ & V). apply V. rewrite reduce_counts_low by lia. apply C. lia. }
+      assert (F2 : Forall (fun x => x <= 15) (repeat 0 30)).
+      { rewrite Forall_forall. intros x Hx. apply repeat_spec in Hx. subst x. lia. }
+      assert (Htok : toks_ok 32768 (oavail st) (map TLit d)) by apply toks_ok_lits.
+      destruct (inv_apply _ st Htok Hinv) as (I' & R' & A').
+      rewrite expand_rev_lits in R'.
+      exists (apply_toks (map TLit d) st). split; [|split; [exact I' | split; [exact R' | split]]].
+      + intros rest.
+        destruct (dyn_block_core litlens (repeat 0 30) (map TLit d) f st rest (N.of_nat n)
+                                 L1 eq_refl F1 F2 O1 eq_refl H256 V3 Hcoded Htok) as [Hb _].
+        cbv zeta in Hb. rewrite flat_map_lits in Hb. rewrite Hb. f_equal. f_equal. lia.
+      + destruct I' as [I1' _]. rewrite I1', R', rev_append_length.
+        destruct Hinv as [I1 _]. rewrite I1 in Htr. unfold lenN in Htr.
+        replace (N.of_nat (length d + length (rout st))) with (N.of_nat (length (rout st)) + N.of_nat (length d)) by lia.
+        exact Htr.
+      + destruct (dyn_block_core litlens (repeat 0 30) (map TLit d) f st [] 0
+                                 L1 eq_refl F1 F2 O1 eq_refl H256 V3 Hcoded Htok) as [_ Hlen].
+        cbv zeta in Hlen. rewrite flat_map_lits in Hlen. exact Hlen.
+    - (* ESync *)
+      cbn [trace_toks_ok] in Htr. cbn [ev_bits ev_final trace_data_rev].
+      assert (Hk : N.of_nat (padk (n + 3)) = (8 - (N.of_nat n + N.of_nat 1 + N.of_nat 2) mod 8) mod 8)
+        by (unfold padk; lia).
+      exists (sync_st st (mkbs [] (N.of_nat n + N.of_nat (3 + padk (n + 3) + 32)))).
+      split; [|split; [exact Hinv | split; [reflexivity | split; [exact Htr|]]]].
+      + intros rest. rewrite (empty_block_step false st _ rest _ Hk). cbv zeta.
+        rewrite !app_length, repeat_length, marker_length. cbn [length].
+        replace (N.of_nat (n + (3 + (padk (n + 3) + 32)))) with (N.of_nat n + N.of_nat (3 + padk (n + 3) + 32)) by lia.
+        reflexivity.
+      + rewrite !app_length. cbn [length]. lia.
+    - (* EFinalEmpty *)
+      cbn [trace_toks_ok] in Htr. cbn [ev_bits ev_final trace_data_rev].
+      assert (Hk : N.of_nat (padk (n + 3)) = (8 - (N.of_nat n + N.of_nat 1 + N.of_nat 2) mod 8) mod 8)
+        by (unfold padk; lia).
+      exists st.
+      split; [|split; [exact Hinv | split; [reflexivity | split; [exact Htr|]]]].
+      + intros rest. rewrite (empty_block_step true st _ rest _ Hk). cbv zeta.
+        rewrite !app_length, repeat_length, marker_length. cbn [length].
+        replace (N.of_nat (n + (3 + (padk (n + 3) + 32)))) with (N.of_nat n + N.of_nat (3 + padk (n + 3) + 32)) by lia.
+        reflexivity.
+      + rewrite !app_length. cbn [length]. lia.
+  Qed.
